@@ -24,7 +24,8 @@ def _t() -> Dict[str, List[Tuple[str, str, Callable[[Check], object]]]]:
                 ("R08.1", "after a restart the ledger is rebuilt from rows that mirror what was written", c08.r08_1),
                 ("R07.1", "the header fields that tell solicited from unsolicited data are decoded as written", MSG)],
         "C03": [("R05.6", "a block's height is its parent's plus one (so a reward transaction cannot repeat an ancestor's)", c05.r05_6),
-                ("R08.7", "row collectors of the store reader are per transaction", c08.r08_7)],
+                ("R08.7", "row collectors of the store reader are per transaction", c08.r08_7),
+                ("R08.8", "the ledger replayed after a restart is replayed from blocks whose transactions come back in the stored order", c08.r08_8)],
         "C04": [("R13.3", "the chain manager stores every state it is given (head changes are not skipped)", c13.r13_3),
                 ("R05.7", "a fork block's evidence is recomputed from ITS ancestors (fork blocks stay acceptable)", c05.r05_7),
                 ("R05.2", "a fork block's timestamp is compared with ITS parent's", c05.r05_2),
@@ -43,7 +44,8 @@ def _t() -> Dict[str, List[Tuple[str, str, Callable[[Check], object]]]]:
                 ("R05.7", "valid relayed blocks on a fork pass the evidence check (own ancestors)", c05.r05_7),
                 ("R01.10", "applying a block removes exactly the spent outputs (a re-spend fails to apply)", lambda ck: rule_uto_apply(ck, "R01.10")),
                 ("R02.3", "overspend check after the existence check (a missing input is a rejection, not an error)", c02.r02_3),
-                ("R03.2", "a fork block is applied to its parent's ledger", c03.r03_2)],
+                ("R03.2", "a fork block is applied to its parent's ledger", c03.r03_2),
+                ("R01.4", "a relayed block's spends carry signatures over the whole transaction (full validity before adoption)", c01.r01_3_4)],
         "C10": [("R03.2", "states built during download are built from each block's parent", c03.r03_2),
                 ("R04.4", "the height index used to answer get-blocks is the head's", c04.r04_4),
                 ("P7", "a block-sized data message fits the frame limit", c11.check_receive),
@@ -52,7 +54,8 @@ def _t() -> Dict[str, List[Tuple[str, str, Callable[[Check], object]]]]:
         "C11": [("R07.1", "every message an unmodified peer sends decodes (field widths and signedness agree)", MSG),
                 ("R18.5", "list lengths on the wire use the encoding deployed nodes use", c18.r18_5)],
         "C12": [("R13.3", "adopting the found block stores it as the served state, then cleans the pool against it", c13.r13_3),
-                ("R09.10", "every peer that greeted receives the found block", c09.r09_10)],
+                ("R09.10", "every peer that greeted receives the found block", c09.r09_10),
+                ("R09.5", "a found block handed to the disk interface reaches the store that is read at start-up", c09.r09_5)],
         "C13": [("R01.4", "admission checks every input's signature over the whole transaction", c01.r01_3_4),
                 ("R01.7", "admission rejects a reference used twice across the pool candidate set", c01.r01_7),
                 ("R01.6", "a signature is valid only for the message it signs", c01.r01_6)],
@@ -111,3 +114,20 @@ def run(ck: Check) -> None:
         pre, what = RX2[ck.prop]
         fn = _rejections(pre, what)
         ck.run("RX.2", what + " (no new rejection conditions)", lambda: fn(ck))
+        from .common import rule_no_partial_builtins
+        ck.run("RX.4", what + " (no operation that fails on an empty argument)", lambda: rule_no_partial_builtins(ck, "RX.4", pre, what))
+    files = _anchor_files(ck.prop)
+    if files:
+        from .common import rule_one_shot_iterators
+        ck.run("RX.3", "values the rules read as sequences are not half-consumed iterators", lambda: rule_one_shot_iterators(ck, "RX.3", files))
+
+
+def _anchor_files(prop: str) -> List[str]:
+    import json
+    import os
+    from ..engine.report import VERIF_ROOT
+    for line in open(os.path.join(VERIF_ROOT, "properties.jsonl")):
+        d = json.loads(line)
+        if d["id"] == prop:
+            return [f for f in d.get("anchors", {}).get("files", []) if f.endswith(".py")]
+    return []
